@@ -9,7 +9,13 @@
  * Compile with -DFI_DEC for the decoder variant (built as a second executable: the two archives share objects).
  *
  * usage: faultinj <out-prefix> sites [opts]           run 0: count + record every event with its call stack
- *        faultinj <out-prefix> run <listfile> [opts]  one forked child per k read from <listfile> (one k per line)
+ *        faultinj <out-prefix> run <listfile> [opts]  one forked child per k read from <listfile> (one k per line,
+ *                                                     ascending).  A "trunk" process runs the unfaulted session once and,
+ *                                                     while it is still single-threaded, forks a child right before
+ *                                                     each listed event; the child fails that event and carries on to
+ *                                                     teardown (cost per k independent of k).  Events after the first
+ *                                                     thread creation are replayed from the start in a fresh child
+ *                                                     (trunk=0 forces replay for every k: used to cross-check).
  * opts : key=value ...   w,h,lp,preset,hl (encoder) | ivf=<file> threads=N (decoder) | quiesce_ms, hard_s, gdb=0|1
  *
  * Events are numbered 1.. over the whole session in the order the API-calling thread performs them; only that
@@ -34,6 +40,7 @@
 #include <signal.h>
 #include <sys/stat.h>
 #include <sys/wait.h>
+#include <sys/resource.h>
 #ifdef FI_DEC
 #include "EbSvtAv1Dec.h"
 #else
@@ -71,6 +78,13 @@ static int          g_hit_phase = -1, g_hit_kind = -1;
 static long         g_per_phase[8], g_per_kind[K_N];
 static FILE *       g_sites; /* run 0 only */
 static __thread int g_inwrap;
+/* trunk mode */
+static int         g_is_trunk, g_mt; /* g_mt: a library thread exists, forking is no longer sound */
+static long *      g_ks;
+static int         g_nks, g_kpos;
+static const char *g_out;
+static FILE *      g_fres;
+static int         trunk_fork(long idx);
 
 #define MAXFR 10
 static int fi_event(int kind) {
@@ -89,6 +103,14 @@ static int fi_event(int kind) {
         fputc('\n', g_sites);
     }
     int fail = (idx == g_fail_at);
+    if (g_is_trunk && !g_mt) {
+        while (g_kpos < g_nks && g_ks[g_kpos] < idx) g_kpos++;
+        if (g_kpos < g_nks && g_ks[g_kpos] == idx) {
+            g_kpos++;
+            if (trunk_fork(idx)) /* we are the child: this very event fails */
+                fail = 1;
+        }
+    }
     if (fail) {
         g_hit_phase = g_phase;
         g_hit_kind  = kind;
@@ -126,7 +148,10 @@ int __wrap_posix_memalign(void **p, size_t al, size_t n) {
 int __wrap_pthread_create(pthread_t *t, const pthread_attr_t *a, void *(*fn)(void *), void *arg) {
     if (fi_event(K_THREAD))
         return EAGAIN;
-    return __real_pthread_create(t, a, fn, arg);
+    int r = __real_pthread_create(t, a, fn, arg);
+    if (r == 0 && g_is_trunk)
+        g_mt = 1;
+    return r;
 }
 int __wrap_sem_init(sem_t *s, int sh, unsigned v) {
     if (fi_event(K_SEM)) {
@@ -154,7 +179,7 @@ int __wrap_pthread_mutex_init(pthread_mutex_t *m, const pthread_mutexattr_t *a) 
 #define DISARM() (g_armed = 0)
 
 /* ------------------------------------------------------------ options */
-static int         o_w = 64, o_h = 64, o_lp = 1, o_preset = 8, o_hl = 3, o_threads = 2, o_gdb = 1, o_frames = 1;
+static int         o_w = 64, o_h = 64, o_lp = 1, o_preset = 8, o_hl = 3, o_threads = 2, o_gdb = 1, o_frames = 1, o_trunk = 1;
 static long        o_quiesce_ms = 5000, o_hard_s = 300;
 static const char *o_ivf;
 static uint8_t *   g_ivf;
@@ -177,6 +202,7 @@ static void parse_opts(int argc, char **argv, int from) {
         OPT("threads", o_threads, atoi(v));
         OPT("frames", o_frames, atoi(v));
         OPT("gdb", o_gdb, atoi(v));
+        OPT("trunk", o_trunk, atoi(v));
         OPT("quiesce_ms", o_quiesce_ms, atol(v));
         OPT("hard_s", o_hard_s, atol(v));
         OPT("ivf", o_ivf, v);
@@ -200,13 +226,21 @@ static int count_threads(void) {
 static int g_rfd = -1; /* progress pipe to the parent */
 static void prog(const char *fmt, ...) __attribute__((format(printf, 1, 2)));
 #include <stdarg.h>
+static char   g_progbuf[2048]; /* everything reported so far (a child forked off the trunk replays it to its pipe) */
+static size_t g_proglen;
 static void prog(const char *fmt, ...) {
     char    b[256];
     va_list ap;
     va_start(ap, fmt);
     int n = vsnprintf(b, sizeof(b), fmt, ap);
     va_end(ap);
-    if (n > 0 && g_rfd >= 0)
+    if (n <= 0)
+        return;
+    if (g_proglen + (size_t)n < sizeof(g_progbuf)) {
+        memcpy(g_progbuf + g_proglen, b, (size_t)n);
+        g_proglen += (size_t)n;
+    }
+    if (g_rfd >= 0)
         if (write(g_rfd, b, (size_t)n) < 0) {}
 }
 
@@ -393,45 +427,27 @@ static void json_str(FILE *f, const char *s) {
     fputc('"', f);
 }
 
-static void run_one(const char *out, long k, FILE *fres) {
-    int pfd[2];
-    if (pipe(pfd))
-        return;
-    char errp[1024];
-    snprintf(errp, sizeof(errp), "%s.k%ld.err", out, k);
-    fflush(NULL);
-    uint64_t t0  = v_now_us();
-    pid_t    pid = fork();
-    if (pid == 0) {
-        close(pfd[0]);
-        g_rfd  = pfd[1];
-        int fd = open(errp, O_WRONLY | O_CREAT | O_TRUNC, 0644);
-        if (fd >= 0) {
-            dup2(fd, 2);
-            close(fd);
-        }
-        setpgid(0, 0);
-        g_fail_at = k;
-        session();
-        _exit(0);
-    }
-    close(pfd[1]);
-    fcntl(pfd[0], F_SETFL, O_NONBLOCK);
+/* watch child `pid` (progress pipe read end `rfd`) until it exits, dead-locks or exceeds the hard limit; write its
+ * result line */
+static void supervise(const char *out, long k, FILE *fres, pid_t pid, int rfd, uint64_t t0, const char *errp, int trunk) {
+    fcntl(rfd, F_SETFL, O_NONBLOCK);
     char   pbuf[4096];
     size_t plen = 0;
     int    st = 0, exited = 0, hang = 0, hard = 0;
+    struct rusage ru;
+    memset(&ru, 0, sizeof(ru));
     Snap   prev = {0, 0, 0};
     long   same_ms = 0, tick = 0;
     for (;;) {
         ssize_t r;
-        while (plen < sizeof(pbuf) - 1 && (r = read(pfd[0], pbuf + plen, sizeof(pbuf) - 1 - plen)) > 0) plen += (size_t)r;
-        pid_t w = waitpid(pid, &st, WNOHANG);
+        while (plen < sizeof(pbuf) - 1 && (r = read(rfd, pbuf + plen, sizeof(pbuf) - 1 - plen)) > 0) plen += (size_t)r;
+        pid_t w = wait4(pid, &st, WNOHANG, &ru);
         if (w == pid) {
             exited = 1;
             break;
         }
-        usleep(2000);
-        tick += 2;
+        usleep(1000);
+        tick += 1;
         if (tick % 250 == 0) {
             Snap s;
             snap(pid, &s);
@@ -460,12 +476,12 @@ static void run_one(const char *out, long k, FILE *fres) {
         }
         kill(-pid, SIGKILL);
         kill(pid, SIGKILL);
-        waitpid(pid, &st, 0);
+        wait4(pid, &st, 0, &ru);
     }
     ssize_t r;
-    while (plen < sizeof(pbuf) - 1 && (r = read(pfd[0], pbuf + plen, sizeof(pbuf) - 1 - plen)) > 0) plen += (size_t)r;
+    while (plen < sizeof(pbuf) - 1 && (r = read(rfd, pbuf + plen, sizeof(pbuf) - 1 - plen)) > 0) plen += (size_t)r;
     pbuf[plen] = 0;
-    close(pfd[0]);
+    close(rfd);
     struct stat sb;
     long        errsz = 0;
     if (stat(errp, &sb) == 0) {
@@ -473,12 +489,117 @@ static void run_one(const char *out, long k, FILE *fres) {
         if (errsz == 0)
             unlink(errp);
     }
-    fprintf(fres, "{\"k\":%ld,\"exited\":%d,\"status\":%d,\"signal\":%d,\"hang\":%d,\"hard_timeout\":%d,\"errsize\":%ld,\"ms\":%ld,\"progress\":",
+    fprintf(fres,
+            "{\"k\":%ld,\"exited\":%d,\"status\":%d,\"signal\":%d,\"hang\":%d,\"hard_timeout\":%d,\"errsize\":%ld,\"ms\":%ld,"
+            "\"trunk\":%d,\"cpu_ms\":%ld,\"progress\":",
             k, exited && WIFEXITED(st), exited && WIFEXITED(st) ? WEXITSTATUS(st) : -1,
-            exited && WIFSIGNALED(st) ? WTERMSIG(st) : 0, hang, hard, errsz, (long)((v_now_us() - t0) / 1000));
+            exited && WIFSIGNALED(st) ? WTERMSIG(st) : 0, hang, hard, errsz, (long)((v_now_us() - t0) / 1000), trunk,
+            (long)(ru.ru_utime.tv_sec * 1000 + ru.ru_utime.tv_usec / 1000 + ru.ru_stime.tv_sec * 1000 + ru.ru_stime.tv_usec / 1000));
     json_str(fres, pbuf);
     fprintf(fres, "}\n");
     fflush(fres);
+}
+
+static void child_setup(int wfd, const char *errp) {
+    g_rfd  = wfd;
+    int fd = open(errp, O_WRONLY | O_CREAT | O_TRUNC, 0644);
+    if (fd >= 0) {
+        dup2(fd, 2);
+        close(fd);
+    }
+    setpgid(0, 0);
+}
+
+/* called by the trunk from inside fi_event right before event idx: returns 1 in the child, 0 in the trunk (after the
+ * child has been supervised to its end) */
+static int trunk_fork(long idx) {
+    int pfd[2];
+    if (pipe(pfd))
+        return 0;
+    char errp[1024];
+    snprintf(errp, sizeof(errp), "%s.k%ld.err", g_out, idx);
+    fflush(NULL);
+    uint64_t t0  = v_now_us();
+    pid_t    pid = fork();
+    if (pid == 0) {
+        close(pfd[0]);
+        g_is_trunk = 0;
+        child_setup(pfd[1], errp);
+        if (g_proglen)
+            if (write(g_rfd, g_progbuf, g_proglen) < 0) {}
+        g_fail_at = idx;
+        return 1;
+    }
+    close(pfd[1]);
+    supervise(g_out, idx, g_fres, pid, pfd[0], t0, errp, 1);
+    return 0;
+}
+
+/* replay mode: a fresh child runs the session from the start and fails event k */
+static void run_one(const char *out, long k, FILE *fres) {
+    int pfd[2];
+    if (pipe(pfd))
+        return;
+    char errp[1024];
+    snprintf(errp, sizeof(errp), "%s.k%ld.err", out, k);
+    fflush(NULL);
+    uint64_t t0  = v_now_us();
+    pid_t    pid = fork();
+    if (pid == 0) {
+        close(pfd[0]);
+        child_setup(pfd[1], errp);
+        g_fail_at = k;
+        session();
+        _exit(0);
+    }
+    close(pfd[1]);
+    supervise(out, k, fres, pid, pfd[0], t0, errp, 0);
+}
+
+/* the trunk: an unfaulted session that forks a child before every listed event while single-threaded; returns the
+ * number of listed ks it has dealt with (the rest must be replayed) */
+static int run_trunk(const char *out, long *ks, int nks, FILE *fres) {
+    char pos[1024];
+    snprintf(pos, sizeof(pos), "%s.trunkpos", out);
+    unlink(pos);
+    fflush(NULL);
+    pid_t pid = fork();
+    if (pid == 0) {
+        int fd = open("/dev/null", O_WRONLY);
+        if (fd >= 0) {
+            dup2(fd, 2);
+            close(fd);
+        }
+        g_is_trunk = 1;
+        g_ks       = ks;
+        g_nks      = nks;
+        g_kpos     = 0;
+        g_out      = out;
+        g_fres     = fres;
+        session();
+        if (!g_is_trunk)
+            _exit(0); /* a child forked off the trunk has finished its faulted session */
+        FILE *f = fopen(pos, "w");
+        if (f) {
+            fprintf(f, "%d\n", g_kpos);
+            fclose(f);
+        }
+        _exit(0);
+    }
+    int st = 0;
+    waitpid(pid, &st, 0);
+    int   done = 0;
+    FILE *f    = fopen(pos, "r");
+    if (f) {
+        if (fscanf(f, "%d", &done) != 1)
+            done = 0;
+        fclose(f);
+        unlink(pos);
+    } else {
+        /* the trunk died: count the result lines it managed to write */
+        done = -1;
+    }
+    return done;
 }
 
 int main(int argc, char **argv) {
@@ -562,13 +683,43 @@ int main(int argc, char **argv) {
             return 2;
         }
         snprintf(path, sizeof(path), "%s.results", out);
-        FILE *fres = fopen(path, "w");
+        unlink(path);
+        FILE *fres = fopen(path, "a+");
         if (!fres)
             return 2;
-        long k;
-        while (fscanf(fl, "%ld", &k) == 1) run_one(out, k, fres);
-        fclose(fres);
+        long *ks = NULL, k;
+        int   n = 0, cap = 0;
+        while (fscanf(fl, "%ld", &k) == 1) {
+            if (n == cap) {
+                cap = cap ? cap * 2 : 256;
+                ks  = (long *)__real_realloc(ks, sizeof(long) * (size_t)cap);
+            }
+            ks[n++] = k;
+        }
         fclose(fl);
+        int done = 0;
+        if (o_trunk && n > 0) {
+            done = run_trunk(out, ks, n, fres);
+            if (done < 0) {
+                /* trunk crashed: find out what it completed from the results file */
+                fflush(fres);
+                done       = 0;
+                FILE *fr   = fopen(path, "r");
+                char  line[8192];
+                long  last = -1;
+                while (fr && fgets(line, sizeof(line), fr)) {
+                    long kk;
+                    if (sscanf(line, "{\"k\":%ld", &kk) == 1)
+                        last = kk;
+                }
+                if (fr)
+                    fclose(fr);
+                while (done < n && ks[done] <= last) done++;
+            }
+            fseek(fres, 0, SEEK_END);
+        }
+        for (int i = done; i < n; i++) run_one(out, ks[i], fres);
+        fclose(fres);
         return 0;
     }
     fprintf(stderr, "faultinj: unknown mode %s\n", mode);
